@@ -40,7 +40,7 @@ PROPS = {
                     "tied to the code by differential execution of generated handler programs through the real Parser -> handler -> "
                     "flushResponse path, plus a net/http.ReadResponse decoding oracle on the implementation alone",
             "note": "model fidelity is sampled (differential run on every check); Sane excludes handler errors (see docs/resp.md); "
-                    "ReadFrom is proved for the ServeContent shape only; every theorem except c09_write_returns_len "
+                    "ReadFrom is proved for identity framing (ServeContent shape and after earlier writes); every theorem except c09_write_returns_len "
                     "assumes a conn that accepts the writes; HEAD is finding resp-head-body",
             "technique": "Lean 4 proof (invariant over op sequences) + differential correspondence + independent decoder oracle"},
         "lean": ["NbioVerif.Properties.C09"], "drivers": ["respdrv"], "harness": ["hresp"],
